@@ -5,6 +5,7 @@ Decided by Barril/Props/C09.lean over the model Barril/Model/Ops.lean (`Scalar._
 Python's operator dispatch with numpy's deferral as a parameter).  Tie: every operator form with a number
 or an ndarray on either side of a Scalar / Array, on the real code and on the model (`drv_ops`)."""
 import math
+from fractions import Fraction
 
 import _ops_common as oc
 from _ops_common import model_line  # noqa: F401  (part of the module API)
@@ -27,7 +28,12 @@ ASSUMPTIONS = [
     "a non-finite numpy result (division by zero yields inf/nan plus a RuntimeWarning) is canonicalised to the error "
     "class `other`, which is what the model answers for a zero divisor; zero divisors are generated in float slots only "
     "(numpy integer floor division by zero returns 0)",
-    "a quotient that is an integer up to float rounding may floor to either neighbour (don't care)",
+    "a quotient that is an integer up to float rounding may floor to either neighbour (don't care) ONLY where a rounded "
+    "intermediate exists (unit matching, float32/float16); for x // k and k // x with a double or integer number and no "
+    "unit matching the value must be the floor of the exact quotient of the two floats (decimal-looking pairs generated)",
+    "numpy's typed arithmetic is not modelled: uint/int8/int16 scalars meet float values only (with Python int elements "
+    "numpy wraps around in the small type); numpy.bool_ is not a numpy.number (IsNumber is false: AttributeError, as for "
+    "str/None); complex numbers are accepted by IsNumber but are outside the Rat model and not generated",
     "numpy hands `numpy_scalar op x` / `ndarray op x` over to the reflected operator of a barril object "
     "(__array_priority__): a parameter of the model (`numpyDefers`), observed by the correspondence only",
     "derived-unit matching with two units of one quantity type is engine Alg's subject (C03/C04); here it is covered by "
@@ -62,6 +68,12 @@ def _x(rng, q, shape, n, ints, nonzero):
 def _k(rng, ty, allow_zero):
     if ty in ("int", "i64", "i32"):
         return oc.num_spec(ty, rng.choice([1, 2, 3, 5, -2, -7, 10, 12]))
+    if ty in ("u8", "u16", "u32", "u64"):
+        return oc.num_spec(ty, rng.choice([1, 2, 3, 5, 7, 10, 12, 200]))
+    if ty in ("i8", "i16"):
+        return oc.num_spec(ty, rng.choice([1, 2, 3, 5, -2, -7, 10, 12, 100]))
+    if ty == "f16":
+        return oc.num_spec(ty, rng.choice([0.5, 2.0, 1.5, 3.0, -0.25, 10.0, -7.0, 0.125]))
     if ty == "bool":
         return oc.num_spec(ty, True)
     v = oc.rand_value(rng, nonzero=not allow_zero)
@@ -78,10 +90,12 @@ def _gen(ctx, salt, n_simple, n_derived, n_junk):
     rng = ctx.fresh_rng("C09" + salt)
     for q in _quantities(ctx, rng, n_simple, n_derived):
         for shape in ("scalar", "list", "tuple", "nd"):
-            for ty in oc.NUM_TYPES:
+            for ty in oc.NUM_TYPES + oc.SMALL_TYPES:
                 for f, side in FORMS:
                     n = rng.choice([0, 1, 2, 3, 5])
-                    ints = shape != "scalar" and rng.random() < 0.25
+                    # the small numpy kinds meet float values only: with Python int elements numpy computes in the
+                    # small type itself (uint8(3) - 5 wraps around), which is numpy's arithmetic, not barril's
+                    ints = shape != "scalar" and rng.random() < 0.25 and ty not in oc.SMALL_TYPES
                     k_divides = side == "kx" and f in ("div", "floordiv")
                     x = _x(rng, q, shape, n, ints, nonzero=ints or (k_divides and rng.random() < 0.95))
                     k = _k(rng, ty, allow_zero=(not ints) and ty in ("float", "f64", "f32"))
@@ -105,12 +119,38 @@ def _gen(ctx, salt, n_simple, n_derived, n_junk):
         q = oc.simple_q(ctx, rng)
         shape = rng.choice(["scalar", "list", "tuple", "nd"])
         x = _x(rng, q, shape, 2, False, True)
-        other = rng.choice([dict(t="junk", w="str"), dict(t="junk", w="none"), dict(t="junk", w="list"),
+        other = rng.choice([dict(t="junk", w="str"), dict(t="junk", w="none"), dict(t="junk", w="list"), dict(t="junk", w="npbool"),
                             _x(rng, oc.simple_q(ctx, rng), "scalar" if shape != "scalar" else "list", 2, False, True)])
         f, side = rng.choice(FORMS)
         if other.get("w") == "str" and f == "mul" and shape != "scalar" and side == "kx":
             continue  # 'x' * Array asks for __index__ first: Python's sequence repetition, not modelled
         yield _case(f, side, x, other)
+
+
+# decimal-looking pairs whose float quotient rounds up to an integer while the exact quotient of the two floats is
+# just below it (1.0 / 0.1 == 10.0, but 1.0 // 0.1 == 9.0): `//` must be the floor of the exact quotient
+_DECIMAL_PAIRS = [(1.0, 0.1), (6.0, 0.1), (0.3, 0.1), (4.35, 0.01), (0.7, 0.1), (2.4, 0.2), (1.2, 0.4), (3.0, 0.3),
+                  (0.9, 0.3), (7.0, 0.7), (100.0, 0.1), (0.06, 0.01), (-1.0, 0.1), (1.0, -0.1), (5.5, 0.5), (8.0, 2.0)]
+
+
+def _gen_floor(ctx, salt, n):
+    rng = ctx.fresh_rng("C09floor" + salt)
+    for i in range(n):
+        if i < 4 * len(_DECIMAL_PAIRS):
+            a, b = _DECIMAL_PAIRS[i % len(_DECIMAL_PAIRS)]
+        else:
+            b = rng.choice([0.1, 0.01, 0.2, 0.3, 0.7, 0.05, 0.6, 1.1])
+            a = round(rng.randint(1, 120) * b, 2) * rng.choice([1, 1, 1, -1])
+        q = oc.simple_q(ctx, rng)
+        shape = rng.choice(["scalar", "scalar", "list", "tuple", "nd"])
+        ty = rng.choice(["float", "float", "f64"])
+        side = "xk" if i % 2 == 0 else "kx"
+        xv, kv = (a, b) if side == "xk" else (b, a)
+        if shape == "scalar":
+            x = oc.scalar_spec(q, xv)
+        else:
+            x = oc.array_spec(q, shape, [xv] + [rng.choice(_DECIMAL_PAIRS)[0 if side == "xk" else 1] for _ in range(rng.choice([0, 1, 2]))])
+        yield _case("floordiv", side, x, oc.num_spec(ty, kv))
 
 
 # operator forms whose result quantity is computed by the database (Multiply / Divide / FloorDivide with the
@@ -160,9 +200,11 @@ def cases(ctx):
     if ctx.tier == "quick":
         yield from _gen(ctx, "q", 30, 25, 600)
         yield from _gen_seq(ctx, "q", 600)
+        yield from _gen_floor(ctx, "q", 600)
     else:
         yield from _gen(ctx, "t", 200, 120, 5000)
         yield from _gen_seq(ctx, "t", 6000)
+        yield from _gen_floor(ctx, "t", 6000)
 
 
 def show(c):
@@ -315,11 +357,23 @@ def oracle(c, ctx):
             continue
         if not math.isfinite(g):
             # a silently infinite / nan value is legitimate only when the magnitude leaves the float range
-            if abs(want_v) < (1e30 if (oc.uses_f32(kspec) or isinstance(got[i], np.float32)) else 1e250) and not cls:
+            lim = {"f16": 1e3, True: 1e30, False: 1e250}[_prec(kspec, got[i], np)]
+            if abs(want_v) < lim and not cls:
                 return fail(clause="the operation is applied to the value(s)", form=form, index=i, got=g, want=want_v)
             continue
-        f32 = oc.uses_f32(kspec) or isinstance(got[i], np.float32)
-        tol = (1e-5 if f32 else 1e-9) * max(abs(want_v), abs(float(n_)), abs(float(d_)), 1e-300)
+        f32 = _prec(kspec, got[i], np)
+        if f == "floordiv" and not f32 and not cls and oc.exact_floor_case(t):
+            # no rounded intermediate: Python's (and numpy's) float `//` is the floor of the EXACT quotient of the
+            # two numbers as given
+            qx = Fraction(float(n_)) / Fraction(float(d_))
+            if abs(qx) < 2 ** 52:
+                if g != float(math.floor(qx)):
+                    return fail(clause="x // k is the floor of the exact quotient", form=form, index=i, got=g,
+                                want=float(math.floor(qx)), exact_quotient=float(qx))
+                continue
+        tol = {"f16": 5e-3, True: 1e-5, False: 1e-9}[f32] * max(abs(want_v), abs(float(n_)), abs(float(d_)), 1e-300)
+        if f32 == "f16":
+            tol += 1e-4
         if abs(g - want_v) > tol and not (f == "floordiv" and abs(g - want_v) <= 1.0 + tol and _near_int(float(n_) / float(d_), f32)):
             return fail(clause="the operation is applied to the value(s)", form=form, index=i, got=g, want=want_v)
     return None
@@ -366,9 +420,16 @@ def replay_finding(entry, ctx):
 
 
 def _near_int(p, f32):
-    return abs(p - round(p)) <= (1e-5 if f32 else 1e-9) * max(abs(p), 1.0)
+    return abs(p - round(p)) <= {"f16": 5e-3, True: 1e-5, False: 1e-9}[f32] * max(abs(p), 1.0)
+
+
+def _prec(kspec, v, np):
+    if oc.uses_f32(kspec) == "f16" or isinstance(v, np.float16):
+        return "f16"
+    return bool(oc.uses_f32(kspec)) or isinstance(v, np.float32)
 
 
 def search(ctx):
+    yield from _gen_floor(ctx, "search", 300)
     yield from _gen_seq(ctx, "search", 400)
     yield from _gen(ctx, "search", 12, 8, 0)
